@@ -1,15 +1,19 @@
 (* Main.v -- dispatch of one protocol line to the stream runners *)
-From RW Require Import Base.Bytes Run.Wire Run.RunCodec.
+From RW Require Import Base.Bytes Run.Wire Run.RunCodec Run.RunMig.
 Open Scope N_scope.
 
 Definition k_enc : str := [101; 110; 99].   (* "enc" *)
 Definition k_dec : str := [100; 101; 99].   (* "dec" *)
+Definition k_mig : str := [109; 105; 103].  (* "mig" *)
+Definition k_stb : str := [115; 116; 98].   (* "stb" *)
 
 Definition run_line (line : str) : str :=
   match tokens line with
   | cmd :: args =>
       if str_eqb cmd k_enc then run_enc args
       else if str_eqb cmd k_dec then run_dec args
+      else if str_eqb cmd k_mig then run_mig args
+      else if str_eqb cmd k_stb then run_stb args
       else s_bad
   | [] => s_bad
   end.
